@@ -53,9 +53,10 @@ type Contract struct {
 	NonNil     bool // result non-nil
 	Lets       []letDef
 	Where      string
-	Overflow   bool // check signed overflow instead of assuming none
-	NoPanic    bool // explicit request for safety sweep only
-	External   bool // declared in /verif/specs (outside /repo)
+	Overflow   bool            // check signed overflow instead of assuming none
+	NoPanic    bool            // explicit request for safety sweep only
+	External   bool            // declared in /verif/specs (outside /repo)
+	Allocs     map[int]*Clause // per make-site allocation bounds (bytes), by source ordinal
 }
 
 type letDef struct {
@@ -69,6 +70,7 @@ type Pred struct {
 	Body   ast.Expr
 	Pkg    string
 	Src    string
+	Opaque bool // `view`: kept as a function symbol with a definitional axiom (good quantifier triggers)
 }
 
 type UFunc struct {
@@ -90,17 +92,31 @@ type GuardedBy struct {
 }
 
 type Specs struct {
-	Contracts map[string]*Contract
-	Preds     map[string]*Pred
-	UFuncs    map[string]*UFunc
-	Ghosts    map[string]*GhostVar
-	Guarded   []*GuardedBy
-	Consts    map[string]ast.Expr
-	Axioms    []*Clause
-	Files     []string
-	Lemmas    []*Lemma
-	Tokens    map[string]int // scan of assume/trusted tokens
-	TypeLits  map[string]bool // concrete type names used in typeis()/unbox()
+	Contracts   map[string]*Contract
+	Preds       map[string]*Pred
+	UFuncs      map[string]*UFunc
+	Ghosts      map[string]*GhostVar
+	Guarded     []*GuardedBy
+	Consts      map[string]ast.Expr
+	Axioms      []*Clause
+	Files       []string
+	Lemmas      []*Lemma
+	Tokens      map[string]int  // scan of assume/trusted tokens
+	TypeLits    map[string]bool // concrete type names used in typeis()/unbox()
+	Refinements []*Refinement
+	Immutable   map[string]bool   // package-level variables treated as non-nil constants (sentinel errors)
+	AssignSets  map[string]string // named lists of assigns targets
+}
+
+type Refinement struct {
+	Iface       string
+	Impl        string
+	Coupling    ast.Expr
+	Assuming    ast.Expr // extra hypothesis of the refinement (trusted; listed in the evidence)
+	AssumingSrc string
+	Where       string
+	Pkg         string
+	Props       []string
 }
 
 type Lemma struct {
@@ -116,10 +132,10 @@ type lemmaVar struct{ Name, Type string }
 
 func newSpecs() *Specs {
 	return &Specs{Contracts: map[string]*Contract{}, Preds: map[string]*Pred{}, UFuncs: map[string]*UFunc{},
-		Ghosts: map[string]*GhostVar{}, Consts: map[string]ast.Expr{}, Tokens: map[string]int{}, TypeLits: map[string]bool{}}
+		Ghosts: map[string]*GhostVar{}, Consts: map[string]ast.Expr{}, Tokens: map[string]int{}, TypeLits: map[string]bool{}, Immutable: map[string]bool{}, AssignSets: map[string]string{}}
 }
 
-var kwRe = regexp.MustCompile(`^(pkg|func|props|requires|ensures|assigns|loop|assert|inline|trusted|pure|nonnil|let|pred|ghost|guarded_by|ufunc|const|overflow|lemma|var|hyp|concl|axiom|end|external)\b`)
+var kwRe = regexp.MustCompile(`^(pkg|func|props|alloc|refine|immutable|assignset|requires|ensures|assigns|loop|assert|inline|trusted|pure|nonnil|let|pred|view|ghost|guarded_by|ufunc|const|overflow|lemma|var|hyp|concl|axiom|end|external)\b`)
 
 // rewriteSpec turns the spec surface syntax into a Go expression:
 //
@@ -486,9 +502,18 @@ func (sp *Specs) loadSpecFile(path string, external bool) error {
 			if rest == "" || rest == "nothing" {
 				break
 			}
-			for _, a := range splitTop(rest, ",") {
-				a = strings.TrimSpace(a)
+			items := splitTop(rest, ",")
+			for k := 0; k < len(items); k++ {
+				a := strings.TrimSpace(items[k])
 				if a == "" {
+					continue
+				}
+				if strings.HasPrefix(a, "@") {
+					set, ok := sp.AssignSets[a[1:]]
+					if !ok {
+						return fmt.Errorf("%s: unknown assignset %s", where, a)
+					}
+					items = append(items, splitTop(set, ",")...)
 					continue
 				}
 				if a == "*" {
@@ -557,6 +582,60 @@ func (sp *Specs) loadSpecFile(path string, external bool) error {
 			}
 			as.Clause = cl
 			cur.Asserts = append(cur.Asserts, as)
+		case "alloc":
+			// alloc <n> <expr>: the n-th make() in this function allocates at most <expr> bytes
+			fs := strings.SplitN(rest, " ", 2)
+			idx, err := strconv.Atoi(fs[0])
+			if err != nil || len(fs) < 2 || cur == nil {
+				return fmt.Errorf("%s: bad alloc clause", where)
+			}
+			cl, err := parseClause(fs[1], where, cur.Props)
+			if err != nil {
+				return err
+			}
+			if cur.Allocs == nil {
+				cur.Allocs = map[int]*Clause{}
+			}
+			cur.Allocs[idx] = cl
+		case "refine":
+			// refine <iface method key> by <impl func key> [coupling <pred>(recv)]
+			assuming := ""
+			if i := strings.Index(rest, " assuming "); i >= 0 {
+				assuming = rest[i+len(" assuming "):]
+				rest = rest[:i]
+			}
+			m := regexp.MustCompile(`^(\S+)\s+by\s+(\S+)(?:\s+coupling\s+(.*))?$`).FindStringSubmatch(rest)
+			if m == nil {
+				return fmt.Errorf("%s: bad refine clause", where)
+			}
+			rf := &Refinement{Iface: expandFuncKey(m[1], pkg), Impl: m[2], Where: where, Pkg: pkg}
+			if m[3] != "" {
+				e, err := parseSpecExpr(m[3])
+				if err != nil {
+					return fmt.Errorf("%s: %v", where, err)
+				}
+				rf.Coupling = e
+			}
+			if assuming != "" {
+				e, err := parseSpecExpr(assuming)
+				if err != nil {
+					return fmt.Errorf("%s: %v", where, err)
+				}
+				rf.Assuming = e
+				rf.AssumingSrc = assuming
+				sp.Tokens["assuming"]++
+			}
+			sp.Refinements = append(sp.Refinements, rf)
+		case "assignset":
+			i := strings.Index(rest, "=")
+			if i < 0 {
+				return fmt.Errorf("%s: bad assignset", where)
+			}
+			sp.AssignSets[strings.TrimSpace(rest[:i])] = strings.TrimSpace(rest[i+1:])
+		case "immutable":
+			for _, n := range strings.Fields(rest) {
+				sp.Immutable[n] = true
+			}
 		case "inline":
 			cur.Inline = true
 		case "trusted":
@@ -592,7 +671,7 @@ func (sp *Specs) loadSpecFile(path string, external bool) error {
 				return fmt.Errorf("%s: %v", where, err)
 			}
 			sp.Consts[strings.TrimSpace(rest[:i])] = e
-		case "pred":
+		case "pred", "view":
 			// pred name(a, b) = expr
 			m := regexp.MustCompile(`^([A-Za-z_][A-Za-z0-9_]*)\s*\(([^)]*)\)\s*=\s*(.*)$`).FindStringSubmatch(rest)
 			if m == nil {
@@ -602,7 +681,7 @@ func (sp *Specs) loadSpecFile(path string, external bool) error {
 			if err != nil {
 				return fmt.Errorf("%s: %v", where, err)
 			}
-			p := &Pred{Name: m[1], Body: e, Pkg: pkg, Src: m[3]}
+			p := &Pred{Name: m[1], Body: e, Pkg: pkg, Src: m[3], Opaque: kw == "view"}
 			for _, a := range strings.Split(m[2], ",") {
 				if a = strings.TrimSpace(a); a != "" {
 					p.Params = append(p.Params, strings.Fields(a)[0])
